@@ -12,6 +12,9 @@ import (
 // tree (mutant copies): without -trimpath the package directories are part of the cache key.
 var twinEnv = []string{"GOFLAGS=-mod=mod -trimpath"}
 
+// extraC40Stages is filled by c40_gomysql.go (build tag gomysql): go-mysql as a second decoder of the same events.
+var extraC40Stages []rig.Stage
+
 // Register registers the checks of this engine.
 func Register() {
 	rig.Register(&rig.Spec{Prop: "C38", Level: "exploration", Stages: []rig.Stage{
@@ -23,11 +26,9 @@ func Register() {
 		{Name: "http", Twin: &rig.Twin{Pkg: "utils/remotesrv", Run: "^TestVerifC39Http$"},
 			Env: twinEnv, TimeoutQuick: 25 * time.Minute, TimeoutThorough: 3 * time.Hour},
 	}})
-	rig.Register(&rig.Spec{Prop: "C40", Level: "exploration", Stages: []rig.Stage{
+	rig.Register(&rig.Spec{Prop: "C40", Level: "exploration", Stages: append([]rig.Stage{
 		// no -trimpath here: the package's external tests locate their testdata through runtime.Caller at init time
 		{Name: "vitess", Twin: &rig.Twin{Pkg: "libraries/doltcore/sqle/binlogreplication", Run: "^TestVerifC40$"},
 			TimeoutQuick: 40 * time.Minute, TimeoutThorough: 4 * time.Hour},
-		// second opinion on the same events with go-mysql's decoder (reads the side files of the vitess stage)
-		{Name: "gomysql", Fn: c40GoMySQL, TimeoutQuick: 10 * time.Minute, TimeoutThorough: time.Hour},
-	}})
+	}, extraC40Stages...)})
 }
